@@ -243,7 +243,7 @@ fn predicates(cfg: &Cfg, events: &[Value], pre: &Value, act: &Value, so_from_sta
                 } else if was != "S" {
                     v.push(("C08".into(), format!("port {} steered the clock in state {}", port, was)));
                 }
-                if was == "F" && is == "F" {
+                if was == "F" && is == "F" && !(kind == "freq" && c[2].as_f64() == Some(0.0)) {
                     v.push(("C14".into(), format!("faulty port {} adjusted the clock", port)));
                 }
             }
